@@ -15,7 +15,15 @@ for p in props:
     if not mods or pid in NA or pid not in REG:
         na.append({"property_id": pid, "reason": NA.get(pid, "no solver-based check registered for this property yet")})
         continue
-    m = importlib.import_module("harness." + mods[0])
+    # one process per harness: harnesses rebind attributes of ombott modules at import and must not see each other
+    code = ("import sys, json; sys.path.insert(0, %r); sys.path.insert(0, '/repo'); import crosshair.core_and_libs; "
+            "import importlib; m = importlib.import_module('harness.%s'); "
+            "print('@@' + json.dumps({k: getattr(m, k) for k in ('LEVEL_TEXT', 'LEVEL_NOTE', 'TECHNIQUE')}))" % (ROOT, mods[0]))
+    import subprocess, types
+    out = subprocess.run([sys.executable, "-c", code], capture_output=True, text=True, cwd=ROOT)
+    line = [ln for ln in out.stdout.splitlines() if ln.startswith("@@")]
+    assert line, (pid, out.stderr[-2000:])
+    m = types.SimpleNamespace(**json.loads(line[0][2:]))
     checks.append({
         "property_id": pid,
         "quick_cmd": "./check %s quick" % pid,
